@@ -289,7 +289,7 @@ def exchange_event(ob):
     key = ETF("X") if m.get("key_is_static", True) else chain
     static = key.static_hashing()
     viol = []
-    if m.get("book_exists") and "old_bid" in m:
+    if m.get("book_exists") and "old_bid" in m and key is not chain:     # for a chain key the first access must be the chain-keyed event itself
         ex.process_EventNBBO(EventNBBO(T0, static, nan if m.get("old_bid_nan") else m["old_bid"], nan if m.get("old_ask_nan") else m.get("old_ask", m["old_bid"])))
     if m.get("alive") is False:
         ex.process_EventContractDiscontinued(EventContractDiscontinued(T0, static))
